@@ -14,8 +14,7 @@ for d in $GLOB/; do
     T=$(cd "$D" && PYTHONPATH="$D" /venv/bin/python -m pytest -q -p no:cacheprovider -n 16 -x 2>&1 | tail -1)
   else T="(tests skipped)"; fi
   : > "$OUT/$bid.res"
-  for n in $(seq -w 1 20); do
-    id=C$n
+  for id in ${CHECKS:-C01 C02 C03 C04 C05 C06 C07 C08 C09 C10 C11 C12 C13 C14 C15 C16 C17 C18 C19 C20}; do
     VERIF_REPO="$D" VERIF_OUT="$D/.vfout" $V/check "$id" "$TIER" > "$OUT/$bid.$id.log" 2>&1
     rc=$?
     if [ $rc != 0 ]; then echo "$id rc=$rc $(grep -m1 -E 'VIOLATION|signature=|HARNESS' "$OUT/$bid.$id.log" | cut -c1-200)" >> "$OUT/$bid.res"; fi
@@ -32,6 +31,6 @@ for f in "$OUT"/*.res; do
   bid=$(basename "$f" .res)
   if [ -s "$f" ]; then echo "| $bid | $(tr '\n' ';' < "$f") |"; else echo "| $bid | none (20 checks exit 0) |"; fi
 done
-} > $V/benign/RESULTS-$TIER.md
-cat $V/benign/RESULTS-$TIER.md
+} > ${RESULTS:-$V/benign/RESULTS-$TIER.md}
+cat ${RESULTS:-$V/benign/RESULTS-$TIER.md}
 rm -rf "$OUT"
